@@ -378,6 +378,25 @@ func (s *Scope) LookupString(identifierString string) (*BoundIdentifier, bool) {
 	return s.AliasedLookup(pgsql.Identifier(identifierString))
 }
 
+// ShadowedAlias returns the identifier that alias currently resolves to, if any. Together with Unalias
+// this lets a construct with a scope of its own (a quantifier variable) give the name back when it ends.
+func (s *Scope) ShadowedAlias(alias pgsql.Identifier) models.Optional[pgsql.Identifier] {
+	if identifier, aliased := s.aliases[alias]; aliased {
+		return models.OptionalValue(identifier)
+	}
+
+	return models.Optional[pgsql.Identifier]{}
+}
+
+// Unalias ends the visibility of alias: it resolves to what it resolved to before (shadowed), or to nothing.
+func (s *Scope) Unalias(alias pgsql.Identifier, shadowed models.Optional[pgsql.Identifier]) {
+	if shadowed.Set {
+		s.aliases[alias] = shadowed.Value
+	} else {
+		delete(s.aliases, alias)
+	}
+}
+
 func (s *Scope) LookupDataType(identifier pgsql.Identifier) (pgsql.DataType, bool) {
 	if binding, bound := s.Lookup(identifier); bound {
 		return binding.DataType, true
